@@ -1160,6 +1160,8 @@ class _Part2:
         at = self.emit_pose(n, n['pose'], self.strip(a['name']))
         if a['gravcomp']:
           at.append(('gravcomp', fmt(a['gravcomp'])))
+        if a.get('simple_false'):
+          at.append(('simple', 'false'))
         if n['childclass'] is not None:
           at.append(('childclass', self.classes[n['childclass']]['name']))
         inner = ''
